@@ -105,6 +105,20 @@ class Parser:
         node.loc = SourceLocation(t.line, t.column)
         return node
 
+    def _check_reference(self, node: Node, what: str) -> None:
+        """The target of an assignment or update must be a variable or property reference."""
+        if not isinstance(node, (Identifier, MemberExpression)):
+            raise self._error(f"Invalid {what} target")
+
+    def _check_exponent_base(self, left: Node) -> None:
+        """-x ** y is not allowed: write (-x) ** y or -(x ** y)."""
+        if isinstance(left, UnaryExpression) and not getattr(
+            left, "parenthesized", False
+        ):
+            raise self._error(
+                "Unary operator used immediately before exponentiation expression"
+            )
+
     def _advance(self) -> Token:
         """Advance to next token and return previous."""
         self.previous = self.current
@@ -470,12 +484,14 @@ class Parser:
             expr = self._parse_expression(exclude_in=True)
             if self._match(TokenType.IN):
                 # for (x in obj) or for (a.x in obj)
+                self._check_reference(expr, "for-in")
                 right = self._parse_expression()
                 self._expect(TokenType.RPAREN, "Expected ')' after for-in")
                 body = self._parse_statement()
                 return ForInStatement(expr, right, body)
             elif self._match(TokenType.OF):
                 # for (x of iterable) or for (a.x of iterable)
+                self._check_reference(expr, "for-of")
                 right = self._parse_expression()
                 self._expect(TokenType.RPAREN, "Expected ')' after for-of")
                 body = self._parse_statement()
@@ -659,6 +675,7 @@ class Parser:
             TokenType.RSHIFT_ASSIGN,
             TokenType.URSHIFT_ASSIGN,
         ):
+            self._check_reference(expr, "assignment")
             op = self._advance().value
             right = self._parse_assignment_expression(exclude_in)
             return AssignmentExpression(op, expr, right)
@@ -815,6 +832,7 @@ class Parser:
             TokenType.RSHIFT_ASSIGN,
             TokenType.URSHIFT_ASSIGN,
         ):
+            self._check_reference(left, "assignment")
             op = self._advance().value
             right = self._parse_assignment_expression(exclude_in)
             left = AssignmentExpression(op, left, right)
@@ -847,6 +865,7 @@ class Parser:
             self._advance()
 
             if op == "**":
+                self._check_exponent_base(left)
                 right = self._parse_binary_expression(precedence, exclude_in)
             else:
                 right = self._parse_binary_expression(precedence + 1, exclude_in)
@@ -881,6 +900,7 @@ class Parser:
 
             # Handle right-associative operators
             if op == "**":
+                self._check_exponent_base(left)
                 right = self._parse_binary_expression(precedence, exclude_in)
             else:
                 right = self._parse_binary_expression(precedence + 1, exclude_in)
@@ -967,6 +987,7 @@ class Parser:
         if self._check(TokenType.PLUSPLUS, TokenType.MINUSMINUS):
             op_token = self._advance()
             argument = self._parse_unary_expression()
+            self._check_reference(argument, "increment/decrement")
             return UpdateExpression(op_token.value, argument, prefix=True)
 
         return self._parse_postfix_expression()
@@ -1004,6 +1025,7 @@ class Parser:
                 expr = CallExpression(expr, args)
             elif self._check(TokenType.PLUSPLUS, TokenType.MINUSMINUS):
                 # Postfix increment/decrement
+                self._check_reference(expr, "increment/decrement")
                 op = self._advance().value
                 expr = UpdateExpression(op, expr, prefix=False)
             else:
@@ -1068,6 +1090,7 @@ class Parser:
             # Close parens one at a time, applying operators between them
             for i in range(paren_depth):
                 self._expect(TokenType.RPAREN, "Expected ')' after expression")
+                expr.parenthesized = True
 
                 # If there are more parens to close and we're not at the last one,
                 # check if there are operators between this ) and the next
